@@ -12,6 +12,27 @@ from specs.codec import run_async, _ok_payload, _is_err_concrete
 import specs.dispatch  # noqa
 
 
+def _default_of(ex, ty):
+    """Default::default() of a field type, for the bookkeeping fields a connector carries besides its cache (serde(skip) fields
+    start at their default); None when the type is not one of the simple ones"""
+    ty = ty.strip()
+    if re.match(r'^(?:std::sync::atomic::)?AtomicBool$', ty):
+        return Agg('Atomic', {0: Bool(False)})
+    m = re.match(r'^(?:std::sync::atomic::)?Atomic(U|I)(8|16|32|64|size)$', ty)
+    if m:
+        bits = 64 if m.group(2) == 'size' else int(m.group(2))
+        return Agg('Atomic', {0: Int(BV(0, bits), bits, m.group(1) == 'I')})
+    if ty == 'bool':
+        return Bool(False)
+    m = re.match(r'^(u|i)(8|16|32|64|size)$', ty)
+    if m:
+        bits = 64 if m.group(2) == 'size' else int(m.group(2))
+        return Int(BV(0, bits), bits, m.group(1) == 'i')
+    if re.match(r'^(?:(?:tokio::sync::|std::sync::)?(?:Mutex|RwLock)<)?Option<', ty):
+        return C.mk_option(ex, None)
+    return None
+
+
 def _connector(ck, ex, st, cached):
     fields = ck.si.structs.get('QuicConnector', ['name', 'server', 'port', 'tls', 'bind', 'bbr', 'inline_udp', 'endpoint', 'connection'])
     opt = ex.si.enums['Option']
@@ -19,6 +40,14 @@ def _connector(ck, ex, st, cached):
     slot = Agg('Option', {}, simp(z3.If(cached, BV(1, 64), BV(0, 64))), {1: {0: old}}, opt)
     me = Agg('QuicConnector', {fields.index('name'): Bytes.symbolic('name', 'string'), fields.index('connection'): slot,
                                fields.index('endpoint'): C.mk_option(ex, Opaque('Endpoint', 'ep'))})
+    # whatever else the connector keeps for itself besides the cache (serde(skip) bookkeeping) starts at its Default and is
+    # only changed by the functions under test: states no sequential history reaches are not asked about
+    ftypes = getattr(ck.si, 'struct_types', {}).get('QuicConnector', {})
+    for i, f in enumerate(fields):
+        if i not in me.fields:
+            d = _default_of(ex, ftypes.get(f, ''))
+            if d is not None:
+                me = me.with_field(i, d)
     cell = st.alloc(me)
     slot_ref = Ref(cell, (('f', fields.index('connection'), 'Mutex<Option<QuicConn>>'),))
 
@@ -84,6 +113,61 @@ def spec_get_connection(ck):
     s0.env = {'inputs': dict(ex.inputs)}
     ex.prove(s0, 'C19/quic/get_connection-always-comes-back', covered)
     ck.absorb(ex, 'QuicConnector::get_connection', [o for o, _ in outs] + [s0])
+
+
+def spec_redial_history(ck):
+    """two requests, one after the other, on a connector that starts with nothing cached and all its own bookkeeping at its
+    initial value: if the first one's dial FAILS, the second one dials again (an upstream that was down when first tried is
+    tried again); if the first one's dial succeeds, the second one rides on that connection without dialling."""
+    fn = ck.find(lambda: ck.db.method('QuicConnector', 'get_connection'), 'QuicConnector::get_connection')
+    if fn is None:
+        return
+    ex = ck.engine(loop_bound=3, call_depth=6)
+    ex.benign_havoc = harness.IRRELEVANT
+    ex.no_inline = [re.compile(r'create_connection$')]
+    st = State()
+    first_fails = z3.Bool('first_dial_fails')
+    second_fails = z3.Bool('second_dial_fails')
+    cell, slot_ref, old = _connector(ck, ex, st, z3.BoolVal(False))
+
+    def create(ctx):
+        n = sum(1 for e in ctx.st.trace if e[0] == 'dial')
+        ctx.st.trace.append(('dial', ctx.st.env.get('request', 1)))
+        return Future('dialled-n', [n])
+
+    @CA.awaiter('dialled-n')
+    def _aw(ctx, fut):
+        fails = first_fails if fut.args[0] == 0 else second_fails
+        new = Agg('tuple', {0: Opaque('quinn::Connection', 'connection-%d' % (fut.args[0] + 1)), 1: Opaque('Arc<CHashMap>', 'sessions-%d' % (fut.args[0] + 1))})
+        return Agg('Result', {}, simp(z3.If(fails, BV(1, 64), BV(0, 64))), {0: {0: new}, 1: {0: Opaque('easy_error::Error', 'dial')}}, ctx.ex.si.enums['Result'])
+    ex.overrides.append((re.compile(r'QuicConnector::create_connection$'), create))
+    ex.inputs = {'first_dial_fails': first_fails, 'second_dial_fails': second_fails}
+    self_cell = st.alloc(Ref(cell, ()))
+    n = 0
+    for o1, r1 in run_async(ex, st, fn, [Ref(self_cell, ())]):
+        if o1.status != 'returned' or r1 is None:
+            continue
+        ok1, _ = _ok_payload(r1)
+        d1 = len([e for e in o1.trace if e[0] == 'dial'])
+        s2 = o1.fork()
+        s2.status = 'running'
+        s2.env['request'] = 2
+        for o2, r2 in run_async(ex, s2, fn, [Ref(self_cell, ())]):
+            if o2.status != 'returned' or r2 is None:
+                continue
+            n += 1
+            ok2, v2 = _ok_payload(r2)
+            d2 = len([e for e in o2.trace if e[0] == 'dial' and e[1] == 2])
+            ex.prove(o2, 'C19/quic/after-a-failed-dial-the-next-request-dials-again', z3.Implies(z3.Not(ok1), z3.BoolVal(d1 == 1 and d2 == 1)))
+            ex.prove(o2, 'C19/quic/after-a-successful-dial-the-next-request-reuses-the-connection', z3.Implies(ok1, z3.And(z3.BoolVal(d2 == 0), ok2)))
+            ex.prove(o2, 'C19/quic/an-upstream-that-is-back-serves-the-next-request', z3.Implies(z3.And(z3.Not(ok1), z3.Not(second_fails)), ok2))
+    if not n:
+        ck.add('C19/quic/redial/reachability', 'vacuous', 'two consecutive calls never both returned')
+    for f in ex.findings:
+        if not hasattr(f, 'target'):
+            f.target = 'quic redial history'
+    ck.absorb(ex, 'QuicConnector::get_connection x2', None)
+    ck.bounds['quic-redial'] = 'two consecutive get_connection calls from the freshly loaded connector (nothing cached, serde(skip) fields at their defaults), each dial failing or not'
 
 
 def spec_connect_forgets_dead_connection(ck):
